@@ -40,7 +40,7 @@ def gates(c, tier):
     thin = [f"{a}:{b}" for (a, b), v in sites.items() if len(v) < 2]
     if thin or not sites:
         out.append("spacing sites rendered with < 2 widths: " + ",".join(thin[:6]))
-    for k in ("syntax:quoted", "oids:single", "oids:paren", "esc:27", "esc:5c", "esc:5C", "part:sentence", "malformed-inputs-interleaved", "part:many-extensions", "part:random", "part:edits", "outcome:ValueError", "outcome:definition"):
+    for k in ("syntax:quoted", "syntax:quoted-with-length", "oids:single", "oids:paren", "esc:27", "esc:5c", "esc:5C", "part:sentence", "malformed-inputs-interleaved", "part:many-extensions", "part:random", "part:edits", "outcome:ValueError", "outcome:definition"):
         if c.get(k, 0) == 0:
             out.append(f"never observed {k}")
     if c.get("shard-stopped-early-after-cpu-timeouts", 0):
@@ -119,6 +119,15 @@ def run_shard(ctx: Ctx, acc: Acc):
             acc.nontrivial(text)
         if i < 3:
             acc.sample({"kind": kind, "text": text, "definition": d})
+        if i % 3 == 0:
+            # the same text offered to the two other kinds of definition first (refused, or accepted when the sentence is
+            # valid for both): the verdict for one kind says nothing about another
+            for other in gs.KINDS:
+                if other != kind:
+                    vio_b, outcome_b = check_total(other, text)
+                    acc.count("tried-as-other-kind-first:" + outcome_b)
+                    for key, what in vio_b:
+                        acc.violation(key, what, {"kind": other, "text": text, "total": True})
         if i % 2:
             # failures first: a truncated, an unbalanced and a keyword-damaged variant are refused before the sentence is parsed
             for broken in (text[:-1], text.replace("'", "", 1), text.replace("(", "( (", 1), "( " + text):
